@@ -7,6 +7,7 @@ import RosedVerif.Model.GenEq.Block
 import RosedVerif.Model.GenEq.Wrap
 import RosedVerif.Model.GenEq.Paras
 import RosedVerif.Model.GenEq.InstA
+import RosedVerif.Model.GenEq.AffixPlaceholder
 set_option linter.unusedVariables false
 set_option linter.unusedSectionVars false
 set_option linter.unusedSimpArgs false
@@ -16,7 +17,7 @@ open RosedVerif
 variable {α : Type} [DecidableEq α] (cx : Ctx α)
 
 theorem editorWrapOpts_regenerated (h : Gen.Code.editorWrapOpts_extracted = true)
-    (hd : DefaultsOk cx) (hpos : ∀ a, 0 < cx.blen a) (ed : Editor α) (width : Int)
+    (hd : DefaultsOk cx) (hpos : ∀ a, 0 < cx.blen a) (hph : cx.PhFresh) (ed : Editor α) (width : Int)
     (o : Options α) : Gen.Code.editorWrapOpts cx ed width o = ed.wrapOpts cx width o := by
   first
     | exact absurd h (by decide)
@@ -25,13 +26,14 @@ theorem editorWrapOpts_regenerated (h : Gen.Code.editorWrapOpts_extracted = true
          blockJoin_regenerated cx (by decide), editorApplyGParagraphsOpts_regenerated cx (by decide) hd hpos]
        go_norm
        simp only [ite_pure, pure_bind, map_eq_pure_bind, bind_assoc]
+       simp only [affixPlaceholder_regenerated cx (by decide) hph, pure_bind, Go.stringOfRune]
        split
        · simp only [bind_pure]
          all_goals
            (congr 1
             all_goals
               (funext i para pre suf
-               simp only [Go.gsLen, Go.gsSub, Go.gsAdd, Go.gemRepeatStr, Go.stringsHasSuffix, ite_pure, pure_bind, bind_assoc,
+               simp only [Go.gsLen, Go.gsSub, Go.gsAdd, Go.gemRepeatStr, Go.stringsHasSuffix, Go.stringOfRune, ite_pure, pure_bind, bind_assoc,
                  map_eq_pure_bind, List.append_assoc]
                refine bind_congr (m := R) fun ls => ?_
                go_close))
@@ -39,15 +41,15 @@ theorem editorWrapOpts_regenerated (h : Gen.Code.editorWrapOpts_extracted = true
          go_close)
 
 theorem editorWrap_regenerated (h : Gen.Code.editorWrap_extracted = true)
-    (hd : DefaultsOk cx) (hpos : ∀ a, 0 < cx.blen a) (ed : Editor α) (width : Int) :
+    (hd : DefaultsOk cx) (hpos : ∀ a, 0 < cx.blen a) (hph : cx.PhFresh) (ed : Editor α) (width : Int) :
     Gen.Code.editorWrap cx ed width = ed.wrapOpts cx width ed.opts := by
   first
     | exact absurd h (by decide)
     | (unfold Gen.Code.editorWrap
-       simp only [editorWrapOpts_regenerated cx (by decide) hd hpos, bind_pure])
+       simp only [editorWrapOpts_regenerated cx (by decide) hd hpos hph, bind_pure])
 
 theorem editorWrapOpts_cxA (h : Gen.Code.editorWrapOpts_extracted = true) (ed : Editor Int) (width : Int) (o : Options Int) :
     Gen.Code.editorWrapOpts cxA ed width o = ed.wrapOpts cxA width o :=
-  editorWrapOpts_regenerated cxA h defaultsOk_cxA cxA_WF.2 ed width o
+  editorWrapOpts_regenerated cxA h defaultsOk_cxA cxA_WF.2 _root_.RosedVerif.phFresh_cxA ed width o
 
 end RosedVerif.GenCodeEq
